@@ -78,7 +78,13 @@ func (runInfo *runInfoStruct) invokeLetMemberExpr(expr *ast.MemberExpr) {
 			runInfo.rv = nilValue
 			return
 		}
-		runInfo.rv = runInfo.rv.FieldByIndex(field.Index)
+		// a field promoted through a nil embedded pointer cannot be reached (FieldByIndex panics)
+		runInfo.rv, runInfo.err = runInfo.rv.FieldByIndexErr(field.Index)
+		if runInfo.err != nil {
+			runInfo.err = newStringError(expr, "struct member '"+expr.Name+"' cannot be assigned: embedded pointer is nil")
+			runInfo.rv = nilValue
+			return
+		}
 		// From reflect CanSet:
 		// A Value can be changed only if it is addressable and was not obtained by the use of unexported struct fields.
 		// Often a struct has to be passed as a pointer to be set
@@ -417,6 +423,12 @@ func (runInfo *runInfoStruct) invokeLetSliceExpr(expr *ast.SliceExpr) {
 			}
 		}
 
+		if item.Kind() == reflect.Array && !item.CanAddr() {
+			// reflect cannot slice an array value that is not addressable
+			runInfo.err = newStringError(expr, "slice cannot be assigned")
+			runInfo.rv = nilValue
+			return
+		}
 		item = item.Slice3(beginIndex, endIndex, sliceCap)
 
 		if !item.CanSet() {
